@@ -293,6 +293,38 @@ fn check_typed_positions(i: i64) -> CaseResult {
             Err(e) => fail!("header with the two distinct labels {} and {} rejected: {:?}", i, j, e),
         }
     }
+    // the Value-level API handed the integer in its bignum-tag spelling (which the byte parser folds
+    // away, so only hand-assembled trees hold it): refusing it is fine, classifying it is fine only
+    // as the classification of exactly i
+    {
+        use coset::cbor::value::Value;
+        use coset::AsCborValue;
+        let (tag, mag) = if i >= 0 { (2u64, i as u64) } else { (3u64, !(i as u64)) };
+        let mut be = mag.to_be_bytes().to_vec();
+        while be.len() > 1 && be[0] == 0 {
+            be.remove(0);
+        }
+        let big = Value::Tag(tag, Box::new(Value::Bytes(be)));
+        if let Ok(h) = Header::from_cbor_value(Value::Map(vec![(Value::from(1), big.clone())])) {
+            ensure!(alg_ok, "header alg {} spelled as a bignum tag accepted though unregistered and not private", i);
+            let l = crate::model::alg_to_l(h.alg.as_ref().ok_or("alg absent")?)?;
+            ensure!(l == L::Int(i), "header alg {} spelled as a bignum tag (Value level) classified as {:?}", i, l);
+        }
+        if let Ok(k) = CoseKey::from_cbor_value(Value::Map(vec![(Value::from(1), big.clone())])) {
+            let l = crate::model::reg_label_to_l(reg::KEY_TYPE, &k.kty)?;
+            ensure!(l == L::Int(i) && reg::registered(reg::KEY_TYPE, i) && i != 0, "key type {} spelled as a bignum tag (Value level) classified as {:?}", i, l);
+        }
+        if let Ok(c) = ClaimsSet::from_cbor_value(Value::Map(vec![(big.clone(), Value::Null)])) {
+            if !(1..=7).contains(&i) {
+                let l = crate::model::claim_name_to_l(&c.rest.first().ok_or("claim missing from rest")?.0)?;
+                ensure!(l == L::Int(i) && (reg::registered(reg::CWT_CLAIM_NAME, i) || is_private(i)), "claim key {} spelled as a bignum tag (Value level) classified as {:?}", i, l);
+            }
+        }
+        if let Ok(h) = Header::from_cbor_value(Value::Map(vec![(Value::from(2), Value::Array(vec![big.clone()]))])) {
+            let l = crate::model::reg_label_to_l(reg::HEADER_PARAMETER, &h.crit[0])?;
+            ensure!(l == L::Int(i) && reg::registered(reg::HEADER_PARAMETER, i), "crit entry {} spelled as a bignum tag (Value level) classified as {:?}", i, l);
+        }
+    }
     let alg_j = reg::registered(reg::ALGORITHM, j) || is_private(j);
     if alg_ok && alg_j {
         // a header and its counter-signature naming neighbouring algorithms
